@@ -265,28 +265,31 @@ example : Written .C 0 degC ∧ Written .F 0 degF ∧ Written .K 0 kel ∧ Writt
 under an admissible layout (`C09_query_convert_layout`); the theorem's value is
 (0.001 + 273.15)/1000. -/
 example : String.ofList (renderQuery (convE (natLit [1]) milliC kiloK) [[], [], [' '], [' '], []]) =
-      "1m°C to kK" ∧
-    fromK .K (toK .C (value (natLit [1]) * (10 : Rat) ^ (-3 : Int))) / (10 : Rat) ^ (3 : Int) =
+      "1m°C to kK" ∧ value (natLit [1]) = 1 ∧
+    fromK .K (toK .C ((1 : Rat) * (10 : Rat) ^ (-3 : Int))) / (10 : Rat) ^ (3 : Int) =
       273151 / 1000000 :=
-  ⟨by decide +kernel, by simp [fromK, toK, natLit, value]; norm_num [signFactor, digitsVal]⟩
+  ⟨by decide +kernel, by decide +kernel, by norm_num [fromK, toK]⟩
 
 /-- Test (labelled as a test): the model's whole pipeline on this text. -/
 example : (Eval.query { db := fun _ => .nothing } "1m°C to kK".toList).toOption.map
     (fun r => r.1.map (fun x => x.toOption.map (fun n => (n.value, n.unit)))) =
       some [some (273151 / 1000000, Props.C09.cmp .K 3)] := by decide +kernel
 
+theorem written_degC : Written .C 0 degC := ⟨by decide +kernel, by decide, rfl, by decide⟩
+theorem written_degF : Written .F 0 degF := ⟨by decide +kernel, by decide, rfl, by decide⟩
+theorem written_kel : Written .K 0 kel := ⟨by decide +kernel, by decide, rfl, by decide⟩
+
 /-- Non-vacuity of `C09_query_chain`: `((1 °C to K) to °F) to °C` is a chain. -/
 example : TChain (natLit [1]) .C 0
     (.cast (.paren (.cast (.paren (convE (natLit [1]) degC kel)) [degF])) [degC]) .C 0 :=
-  .conv (.paren (.conv (.paren (.conv (.start ⟨by decide +kernel, by decide, rfl, by decide⟩)
-    ⟨by decide +kernel, by decide, rfl, by decide⟩)) ⟨by decide +kernel, by decide, rfl, by decide⟩))
-    ⟨by decide +kernel, by decide, rfl, by decide⟩
+  .conv (.paren (.conv (.paren (.conv (.start written_degC) written_kel)) written_degF)) written_degC
 
 /-- Test (labelled as a test): that chain as text, with and without parentheses. -/
 example : (Eval.query { db := fun _ => .nothing } "((1 °C to K) to °F) to °C".toList).toOption.map
       (fun r => r.1.map (fun x => x.toOption.map (fun n => (n.value, n.unit)))) =
-      some [some (1, Props.C09.cmp .C 0)] ∧
-    (Eval.query { db := fun _ => .nothing } "1 °C to K to °F to °C".toList).toOption.map
+      some [some (1, Props.C09.cmp .C 0)] := by decide +kernel
+
+example : (Eval.query { db := fun _ => .nothing } "1 °C to K to °F to °C".toList).toOption.map
       (fun r => r.1.map (fun x => x.toOption.map (fun n => (n.value, n.unit)))) =
       some [some (1, Props.C09.cmp .C 0)] := by decide +kernel
 
@@ -309,7 +312,7 @@ example : UnitRead degC2 ∧ NonEmptyUnit (degC2.map rs) ∧ OffsetMisused (degC
 /-- … and the asymmetric query `1 °C to °C*m/ft` has an admissible layout (the default one). -/
 example : QueryLayoutOKQ (.cast (.qty (natLit [1]) [degC]) cmft) [] ∧
     String.ofList (renderQuery (.cast (.qty (natLit [1]) [degC]) cmft) []) = " 1 °C to °C*m/ft " :=
-  ⟨Q_default_layout_ok _ (by simp [WFQ, natLit, Literal.WF, fracDigits])
+  ⟨queryLayoutOKQ_nil _ (by simp [WFQ, natLit, Literal.WF, fracDigits])
     ⟨unitLexOK_of_check (by decide +kernel), unitLexOK_of_check (by decide +kernel)⟩,
    by decide +kernel⟩
 
